@@ -309,7 +309,7 @@ func (fx *FX) havoc(st *State, names []string) {
 				}
 			}
 			for k := range fx.knownComps {
-				if strings.HasPrefix(k, "G:") { // ghost variables are only changed when named
+				if strings.HasPrefix(k, "G:") && !fx.e.envGhost(k) { // protocol ghosts are only changed when named
 					keep[k] = fx.comp(st, k, fx.compSorts[k])
 				}
 			}
@@ -732,4 +732,14 @@ func (fx *FX) bindPhis(fr *frame, b *ssa.BasicBlock, ins []*State, preds []*ssa.
 		t.Signed = isSigned(phi.Type())
 		fr.vals[phi] = Val{T: t, Typ: phi.Type()}
 	}
+}
+
+// envGhost: the component is an environment ghost (declared `ghost NAME SORT env`), which "*" covers.
+func (e *Engine) envGhost(comp string) bool {
+	for _, g := range e.CS.Ghosts {
+		if "G:"+g.Name == comp {
+			return g.Env
+		}
+	}
+	return false
 }
